@@ -61,7 +61,8 @@ func checkC10(c *core.Ctx, r *core.Report) {
 		"(1) GUARD verify-before-decode in every WAL reader (functions of package wal that io.ReadFull a block): the CRC32 of the very buffer that was read is compared with the checksum read from the file, every payload-interpreting call and every success return after the read is dominated by the equal edge, the rejecting edges do nothing but log and return an error, and the size field is range-checked before the subtraction; decoded-record buffers are written only by code running under that edge; " +
 		"(2) writer/reader framing agreement (CRC over the bytes written, size = len+K on both sides, field order size|crc|payload); " +
 		"(3) ORDER persist-before-discard: every call that may delete a WAL file is preceded on all paths by the call that makes its content durable, and only where that call's error is nil; every discard site is owned by such an obligation; " +
-		"(4) ATOMIC for the WAL that is rewritten instead of appended."
+		"(4) ATOMIC for the WAL that is rewritten instead of appended; " +
+		"(5) a datapoint WAL file is created (truncating open) only after the name component that distinguishes it from the live file was advanced, or after the block's previous files were deliberately discarded."
 	r.NotCovered = "that replayed datapoints equal the appended ones (zstd and binary encodings), buffering before append, torn writes inside one write call"
 	sm := newSummaries(c)
 
@@ -493,6 +494,62 @@ func checkC10(c *core.Ctx, r *core.Report) {
 			"Wal.Write truncates the live meta-entry WAL and then writes the new content: a crash between the two system calls leaves a log with no entries, so the meta entries of the open metrics segments are lost")
 	} else {
 		r.OK("ATOMIC", "wal.Wal.Write:rewrite-in-place", c.Pos(walWrite.Pos()), "the rewritten WAL is not truncated in place")
+	}
+
+	// ---------------------------------------------------------------- (5) a datapoint WAL file is created under a fresh name
+	{
+		initWal := c.Fn(pkgMetrics, "MetricsBlock.initNewDpWal")
+		idxF := c.Field(pkgMetrics, "dpWalState.currentWALIndex")
+		segF := c.Field(pkgMetrics, "dpWalState.segID")
+		blkF := c.Field("pkg/segment/structs", "MBlockSummary.Blknum")
+		deleteFiles := c.Obj(pkgMetrics, "MetricsBlock.deleteDpWalFiles")
+		newSeg := c.Obj(pkgMetrics, "InitMetricsSegment")
+		// the name really is built from these components
+		uses := map[*types.Var]bool{}
+		for _, b := range initWal.Blocks {
+			for _, in := range b.Instrs {
+				if ld, ok := in.(*ssa.UnOp); ok {
+					if fa, ok := ld.X.(*ssa.FieldAddr); ok {
+						uses[core.FieldOfAddr(fa)] = true
+					}
+				}
+			}
+		}
+		r.Check(uses[idxF] && uses[blkF], "ORDER", "metrics.MetricsBlock.initNewDpWal:file-name-from-block-number-and-wal-index", c.Pos(initWal.Pos()), "the WAL file name is built from the block number and the per-block WAL index", "the datapoint WAL file name no longer depends on the block number and the WAL index")
+		n := 0
+		for _, fn := range c.RepoFunctions() {
+			for i, call := range callsTo(fn, initWal.Object()) {
+				n++
+				fresh := ""
+				for _, b := range fn.Blocks {
+					for _, in := range b.Instrs {
+						if !core.InstrDominates(in, call) {
+							continue
+						}
+						switch x := in.(type) {
+						case *ssa.Store:
+							if fa, ok := x.Addr.(*ssa.FieldAddr); ok {
+								f := core.FieldOfAddr(fa)
+								if f == idxF || f == segF || f == blkF {
+									fresh = "the name component " + f.Name() + " is changed first"
+								}
+							}
+						case ssa.CallInstruction:
+							if core.IsCallTo(x, deleteFiles) {
+								fresh = "the block's previous WAL files are deleted first"
+							}
+							if core.IsCallTo(x, newSeg) {
+								fresh = "the metrics segment was just created"
+							}
+						}
+					}
+				}
+				construct := fmt.Sprintf("%s:initNewDpWal#%d-creates-a-file-under-a-fresh-name", shortFn(fn), i+1)
+				r.Check(fresh != "", "ORDER", construct, c.Pos(call.Pos()), fresh,
+					"a datapoint WAL file is created (opened with O_TRUNC) without first advancing the WAL index, changing the block / segment number or discarding the block's previous files: the name is that of the live WAL file, whose completed appends are wiped, so a crash before the block is flushed replays only the tail written after the rotation")
+			}
+		}
+		r.Floor("ORDER", "call sites of initNewDpWal", n, 3)
 	}
 }
 
